@@ -153,9 +153,13 @@ def run_invalid(case, r):
     gen = httping.parseChunk(raw)
     produced = None
     try:
-        res = next(gen)
-        if res is not None:
-            produced = res
+        # all bytes are already there: a None means 'need more', asking again must never turn the bytes that follow
+        # the invalid size line into a chunk either
+        for _ in range(6):
+            res = next(gen)
+            if res is not None:
+                produced = res
+                break
     except StopIteration:
         pass
     except Exception:      # noqa: BLE001 - any exception is "reported as an error"
@@ -226,7 +230,12 @@ def invalid_sizes():
         st.text(alphabet=st.characters(min_codepoint=0x20, max_codepoint=0xFF, blacklist_characters=";\x7f"), max_size=5),
     )
     return st.fixed_dictionaries({"k": st.just("invalid"), "size": forms,
-                                  "payload": st.binary(min_size=0, max_size=40)})
+                                  "payload": st.one_of(
+                                      st.binary(min_size=0, max_size=40),
+                                      # bytes that are themselves a well formed chunk (or last chunk): an invalid size line
+                                      # must not be skipped in favour of what follows it
+                                      st.sampled_from([b"3\r\nabc", b"0", b"a\r\n0123456789", b"1;x=y\r\nz",
+                                                       b"5\r\nhello\r\n3\r\nabc"]))})
 
 
 def searches(tier):
